@@ -10,12 +10,12 @@ import (
 // Event is one entry of an observed history. Harness actions are logged BEFORE they are performed,
 // observations AFTER they were made (see lean/FwdVerif/Driver/C11.lean).
 type Event struct {
-	Op   string        `json:"op"`          // c r h p s g a e o R t x L SC SR CC CR D Z X XR K NL SG
-	K    int           `json:"k,omitempty"` // connection; SC SR D Z: number of the Shutdown call; CC CR: number of the Close call
+	Op   string        `json:"op"`          // c r h p s g a e o R t x L SC SR CC CR D Z G X XR K NL SG
+	K    int           `json:"k,omitempty"` // connection; SC SR D Z: number of the Shutdown call; CC CR: number of the Close call; G: the signal's number
 	A    bool          `json:"a,omitempty"` // c: tls   s: CONNECT   R: Connection: close   SC: the context has no deadline
 	B    bool          `json:"b,omitempty"` // s: request carries Connection: close   SC: the context is cancelled by somebody
 	C    bool          `json:"c,omitempty"` // s: the origin answers by itself (rig a CONNECT target)
-	R    string        `json:"r,omitempty"` // SR: "n" nil | "d" context.DeadlineExceeded | "c" context.Canceled
+	R    string        `json:"r,omitempty"` // SR: "n" nil | "d" context.DeadlineExceeded | "c" context.Canceled; SG: the configured signal numbers "10:12" ("" = none)
 	T    time.Duration `json:"t_us"`        // since the start of the case (diagnostic; only the order is compared)
 	skip bool
 }
@@ -38,8 +38,13 @@ func (e *Event) wire() string {
 		return fmt.Sprintf("SC:%d:%s:%s", e.K, b(e.A), b(e.B))
 	case "SR":
 		return fmt.Sprintf("SR:%d:%s", e.K, e.R)
-	case "r", "h", "p", "g", "a", "e", "o", "x", "t", "CC", "CR", "D", "Z":
+	case "r", "h", "p", "g", "a", "e", "o", "x", "t", "CC", "CR", "D", "Z", "G":
 		return fmt.Sprintf("%s:%d", e.Op, e.K)
+	case "SG":
+		if e.R == "" {
+			return "SG"
+		}
+		return "SG:" + e.R
 	default:
 		return e.Op
 	}
